@@ -106,8 +106,21 @@ class C09(Prop):
         dt = time.perf_counter() - t0
         o = {"exc": exc, "dt": dt, "segs": pl.observe_path(p), "ops": {}}
         m = Matrix("matrix(2,0.5,-1,3,7,-2)")
+        def _length():
+            # the follow-up only has to return: a tolerance relative to the path's extent keeps the chord recursion shallow
+            # (an absolute 1e-2 on kilo-unit arcs cost 0.15 s each, hours over a thorough run)
+            if len(p) >= 800:
+                return 0
+            try:
+                bb = p.bbox()
+                ext = max(1.0, abs(bb[2] - bb[0]), abs(bb[3] - bb[1])) if bb else 1.0
+                if ext != ext or ext == float("inf"):
+                    ext = 1.0
+            except Exception:
+                ext = 1.0
+            return p.length(error=1e-2 * ext, min_depth=2)
         fs = {"d": lambda: p.d(), "d_rel": lambda: p.d(relative=True), "bbox": lambda: p.bbox(),
-              "length": lambda: p.length(error=1e-2, min_depth=2) if len(p) < 800 else 0, "mul": lambda: abs(p * m).d()}
+              "length": _length, "mul": lambda: abs(p * m).d()}
         for name in FOLLOW:
             try:
                 fs[name]()
